@@ -26,6 +26,9 @@ pub fn hash64(data: &[u8]) -> u64 {
 
 pub fn hash_str(s: &str) -> u64 { hash64(s.as_bytes()) }
 
+/// Words that mean something to one of the protocols; generated as ordinary *values* (names, maps, rule values).
+pub const KEYWORDS: &[&str] = &["final", "queryid", "splitnum", "player_", "score_0", "team_t", "hostname", "mapname", "numplayers", "maxplayers", "password", "true", "false", "True", "0", "1", "-1", "Mutator", "mutator", "MutatorCount", "GamePassword", "EOT", "statusResponse", "print", "disconnect", "MCPE", "Survival", "bot_5", "echo", "final\\", "\\final\\"];
+
 impl Rng {
     pub fn new(seed: u64) -> Self {
         let mut x = seed;
@@ -128,6 +131,13 @@ impl Rng {
 
     /// A string from one of several classes. `forbidden` characters never appear; NUL never appears.
     pub fn text(&mut self, max_chars: usize, forbidden: &[char]) -> String {
+        // now and then a value that is a word of one of the protocols (a marker, a key, a boolean spelling)
+        if self.chance(1, 24) {
+            let w = *self.pick(KEYWORDS);
+            if w.chars().count() <= max_chars && !w.chars().any(|c| forbidden.contains(&c)) {
+                return w.to_string();
+            }
+        }
         let class = self.below(9);
         let n = match self.below(6) {
             0 => 0,
